@@ -535,6 +535,52 @@ def _primitives(chk):
             "B4 exact evaluation", th_degree)
 
 
+_WITNESS_IO = """
+import numpy as np, os, warnings
+warnings.filterwarnings("ignore")
+from hiten import System
+bad = []
+def same(name, a, b):
+    ok = (a is None and b is None) or (a is not None and b is not None and np.allclose(np.asarray(a, dtype=float), np.asarray(b, dtype=float), rtol=0, atol=0))
+    print(name, "ok" if ok else "DIFFERS", a if not ok else "", b if not ok else "")
+    if not ok:
+        bad.append(name)
+system = System.from_bodies("earth", "moon")
+l1 = system.get_libration_point(1)
+o = l1.create_orbit("halo", amplitude_z=0.2, zenith="southern")
+o.correct()
+o.save("o.pkl")
+o2 = type(o).load("o.pkl")
+same("orbit.period", o.period, o2.period); same("orbit.initial_state", o.initial_state, o2.initial_state)
+same("orbit.mu", o.mu, o2.mu); same("orbit.amplitude", o.amplitude, o2.amplitude)
+same("orbit.monodromy", o.monodromy, o2.monodromy)
+o3 = l1.create_orbit("halo", amplitude_z=0.3, zenith="southern")
+o3.period = 1.0
+o3.load_inplace("o.pkl")
+same("inplace.period", o.period, o3.period); same("inplace.initial_state", o.initial_state, o3.initial_state)
+same("inplace.monodromy (no stale cache)", o.monodromy, o3.monodromy)
+system.save("s.pkl")
+s2 = System.load("s.pkl")
+same("system.mu", system.mu, s2.mu); same("system.distance", system.distance, s2.distance)
+same("system.L1.position", l1.position, s2.get_libration_point(1).position)
+print("CONFIRMED" if bad else "NOT-CONFIRMED", bad)
+"""
+
+
+def _io_witness(chk):
+    def th():
+        from pyvc.core import native
+        out = native(_WITNESS_IO, timeout=1800)
+        if "NOT-CONFIRMED" not in out:
+            raise Refuted("save-load-differs:" + out.strip().splitlines()[-1], out[-1500:], replay=_WITNESS_IO)
+    chk.obl("BOUNDED native witness: save / load / load_inplace of one corrected halo orbit and of its system preserve "
+            "period, state, mu, amplitude, monodromy, L1 position (and load_inplace leaves no stale cache)",
+            "bounded (native witness)", ["hiten.utils.io.orbits:save_periodic_orbit", "hiten.utils.io.orbits:load_periodic_orbit",
+                                         "hiten.utils.io.orbits:load_periodic_orbit_inplace"], "native execution", th)
+    chk.bounded.append({"what": "save/load round trip", "bound": "one Earth-Moon L1 halo orbit and its system",
+                        "counted_as_proved": False})
+
+
 def run(chk):
     loader.install()
     chk.under_contract(SB + ":_CacheServiceBase.make_key", SB + ":_CacheServiceBase.get_or_create", SB + ":_CacheServiceBase.reset",
@@ -553,6 +599,8 @@ def run(chk):
     _completeness(chk)
     _invalidation_frame(chk)
     _primitives(chk)
+    if chk.tier == "thorough":
+        _io_witness(chk)
 
     def canary():
         import hiten.algorithms.types.services.base as sb
